@@ -186,7 +186,13 @@ a `TagRef` object the names `TagRef`, `Union`, `UnionField` (`TagRef(Union('ns.U
 a `datetime` object the name `datetime`
 (`datetime.datetime(...)`: a method call on `datetime`). -/
 inductive AttrKind where
-  | plain | tagRef | timestamp
+  | plain
+  /-- a union tag: printed through `_generate_python_value` as `[ns.]Class.tag` (`ty`: the union, or alias of a
+  union, the schema field is declared with) -/
+  | tagRef (ty : Ty) (tag : Name)
+  /-- printed as `datetime.datetime(...)`; the module then starts with `import datetime` (like `bb` / `bv` a
+  runtime name, not tracked) -/
+  | timestamp
 deriving Repr, DecidableEq, Inhabited
 
 structure Route where
@@ -383,8 +389,8 @@ def unionClassStmts (cur : Name) (d : DataType) : List Stmt :=
       none,
     .assign (c ++ "_validator") none none [here c] ]
 
-/-- `_generate_alias_definition` (note: the class alias is bound under `alias.name` as it is, references to it go
-through `fmt_class`; the validator is bound under `fmt_class(alias.name) + '_validator'`) -/
+/-- `_generate_alias_definition`: the validator is bound under `fmt_class(alias.name) + '_validator'`, the class
+alias under `fmt_class(alias.name)` - the spellings every reference uses -/
 def aliasStmts (api : Api) (cur : Name) (a : Alias) : List Stmt :=
   let v := fmtClass a.name ++ "_validator"
   -- a bare user type / alias: the validator expression is just the other validator's name
@@ -396,8 +402,8 @@ def aliasStmts (api : Api) (cur : Name) (a : Alias) : List Stmt :=
   ++ (if a.redact then [.assign v (some "_redact") none [here v]] else [])
   ++ (if aliasEndsInUser api api.nAliases a.ty then
         match a.ty with
-        | .user ns n => let r := qual cur ns (fmtClass n); [.assign a.name none (some r) [r]]
-        | .alias ns n => let r := qual cur ns (fmtClass n); [.assign a.name none (some r) [r]]
+        | .user ns n => let r := qual cur ns (fmtClass n); [.assign (fmtClass a.name) none (some r) [r]]
+        | .alias ns n => let r := qual cur ns (fmtClass n); [.assign (fmtClass a.name) none (some r) [r]]
         | _ => []
       else [])
 
@@ -453,10 +459,9 @@ def structReflStmts (api : Api) (cur : Name) (d : DataType) : List Stmt :=
   let subs := if d.hasSubtypes then
       let vrefs := d.subtypes.flatMap fun (sns, sn) => tyRefs cur (.user sns sn)
       let crefs := d.subtypes.map fun (_, sn) => here (fmtClass sn)
-      -- the raw `data_type.name`, not `fmt_class(data_type.name)`
-      [Stmt.assign d.name (some "_tag_to_subtype_") none (here d.name :: vrefs),
-       Stmt.assign d.name (some "_pytype_to_tag_and_subtype_") none (here d.name :: crefs ++ vrefs),
-       Stmt.assign d.name (some "_is_catch_all_") none [here d.name]]
+      [Stmt.assign c (some "_tag_to_subtype_") none (here c :: vrefs),
+       Stmt.assign c (some "_pytype_to_tag_and_subtype_") none (here c :: crefs ++ vrefs),
+       Stmt.assign c (some "_is_catch_all_") none [here c]]
     else []
   fieldVals ++ perCaller ++ subs
 
@@ -506,16 +511,16 @@ def defaultStmts (cur : Name) (d : DataType) : List Stmt :=
     | some (.tag t tag) =>
       some (.assign c (some (fmtVar f.name ++ ".default")) none (here c (some (fmtVar f.name)) :: tagRef cur t tag))
 
-def attrRefs : List (Name × AttrKind) → List Ref
+def attrRefs (cur : Name) : List (Name × AttrKind) → List Ref
   | [] => []
-  | (_, .plain) :: r => attrRefs r
-  | (_, .tagRef) :: r => here "TagRef" :: here "Union" :: here "UnionField" :: attrRefs r
-  | (_, .timestamp) :: r => here "datetime" :: attrRefs r
+  | (_, .plain) :: r => attrRefs cur r
+  | (_, .tagRef t tag) :: r => tagRef cur t tag ++ attrRefs cur r
+  | (_, .timestamp) :: r => attrRefs cur r
 
 /-- `_generate_routes` -/
 def routeStmts (cur : Name) (rs : List Route) : List Stmt :=
   rs.map (fun r => Stmt.assign (fmtFunc r.name false r.version) none none
-      (tyRefs cur r.arg ++ tyRefs cur r.result ++ tyRefs cur r.error ++ attrRefs r.attrs))
+      (tyRefs cur r.arg ++ tyRefs cur r.result ++ tyRefs cur r.error ++ attrRefs cur r.attrs))
   ++ [Stmt.assign "ROUTES" none none (rs.map fun r => here (fmtFunc r.name false r.version))]
 
 /-- the order of the sections of `_generate_base_namespace_module`, by the names of the methods that emit them
@@ -779,7 +784,7 @@ def bindNames (api : Api) (ns : Namespace) : List Name :=
   ++ ns.annTypes.map (fmtClass ·.name)
   ++ ns.types.flatMap (fun d => [fmtClass d.name, fmtClass d.name ++ "_validator"])
   ++ ns.aliases.flatMap (fun a => (fmtClass a.name ++ "_validator") ::
-        (if aliasEndsInUser api api.nAliases a.ty then [a.name] else []))
+        (if aliasEndsInUser api api.nAliases a.ty then [fmtClass a.name] else []))
   ++ ns.routes.map (fun r => fmtFunc r.name false r.version)
   ++ ["ROUTES"]
 
@@ -806,22 +811,24 @@ def typeWF (api : Api) (ns : Namespace) (earlier : List DataType) (d : DataType)
       | some (.tag t tag) => tagOKTy api (api.nAliases + 1) t tag && tyOK api ns t
           && aliasEndsInUser api (api.nAliases + 1) t
       | _ => true)
-  -- enumerated subtypes are local structs whose parent is `d`; the raw name is the class name
+  -- enumerated subtypes are local structs whose parent is `d`
   && d.subtypes.all (fun (sns, sn) => sns == ns.name && (match api.findType sns sn with
       | some s => s.isStruct && s.parent == some (ns.name, d.name)
       | none => false))
-  && (d.subtypes.isEmpty || (d.isStruct && fmtClass d.name == d.name && d.parent.isNone))
+  && (d.subtypes.isEmpty || (d.isStruct && d.parent.isNone))
 
 def aliasWF (api : Api) (ns : Namespace) (earlier : List Alias) (a : Alias) : Bool :=
   tyOK api ns a.ty
-  -- the class alias is bound under `alias.name` but referred to as `fmt_class(alias.name)`
-  && (!aliasEndsInUser api api.nAliases a.ty || fmtClass a.name == a.name)
   -- every alias of this namespace mentioned AT ANY DEPTH precedes (`linearize_aliases`)
   && (a.ty.localAliases ns.name).all (fun n => earlier.any (·.name == n))
 
 def routeWF (api : Api) (ns : Namespace) (r : Route) : Bool :=
   tyOK api ns r.arg && tyOK api ns r.result && tyOK api ns r.error
-  && r.attrs.all (fun (_, k) => k == .plain)
+  -- a union-tag attribute names an available void tag of a visible union
+  && r.attrs.all (fun (_, k) => match k with
+      | .tagRef t tag => tagOKTy api (api.nAliases + 1) t tag && tyOK api ns t
+          && aliasEndsInUser api (api.nAliases + 1) t
+      | _ => true)
 
 def nsWF (api : Api) (ns : Namespace) : Bool :=
   allWithEarlier (typeWF api ns) [] ns.types
